@@ -235,7 +235,7 @@ func c02FnRunW(c c02Failer, s c02FnScenario) {
 		c.NonTrivial()
 	}
 	// the generated record itself must satisfy the invariants (generator check)
-	if msg, _ := c02CheckRecord(c02FnCopy(enis), enis, views, ever, nil, s.ERDMA); msg != "" {
+	if msg, _ := c02CheckRecord(c02FnCopy(enis), enis, views, ever, nil, false, s.ERDMA); msg != "" {
 		panic("harness: generated record violates the invariants: " + msg)
 	}
 	rounds := 1
@@ -264,7 +264,7 @@ func c02FnRunW(c c02Failer, s c02FnScenario) {
 			c.Label("released-first")
 		}
 		assignIPFromLocalPool(logr.Discard(), reqs, ipv4Map, ipv6Map, s.ERDMA)
-		msg, facts := c02CheckRecord(prev, enis, views, ever, nil, s.ERDMA)
+		msg, facts := c02CheckRecord(prev, enis, views, ever, nil, false, s.ERDMA)
 		for f := range facts {
 			c.Label("c02:" + f)
 		}
